@@ -633,6 +633,33 @@ func replayC09(ctx *Ctx, c *Case) error {
 				return fmt.Errorf("two messages whose oneof member %s is set to an empty message (held as nil, cloned, or allocated) are not proto.Equal", fd.Name())
 			}
 		}
+		// writing: Mutable hands out a message that can be written to (as protoimpl
+		// does over the same struct), and the generic Merge can fill the member
+		if err := safely(func() error {
+			w := mk()
+			mv := w.ProtoReflect().Mutable(fd).Message()
+			if !mv.IsValid() {
+				return fmt.Errorf("Mutable(%s) on a oneof wrapper holding nil returns a read-only message (protoimpl allocates one)", fd.Name())
+			}
+			mv.SetUnknown(protoreflect.RawFields{0xf8, 0x7f, 0x2a})
+			if got := w.ProtoReflect().Get(fd).Message().GetUnknown(); len(got) != 3 {
+				return fmt.Errorf("a write through Mutable(%s) on a oneof wrapper holding nil does not reach the message", fd.Name())
+			}
+			return nil
+		}); err != nil {
+			return err
+		}
+		if err := safely(func() error {
+			dst, src := mk(), t.New()
+			src.ProtoReflect().Mutable(fd).Message().SetUnknown(protoreflect.RawFields{0xf8, 0x7f, 0x2a})
+			proto.Merge(dst, src)
+			if !proto.Equal(dst, src) {
+				return fmt.Errorf("proto.Merge into a message whose oneof member %s is held as nil does not yield the source", fd.Name())
+			}
+			return nil
+		}); err != nil {
+			return fmt.Errorf("proto.Merge into a message whose oneof member %s is held as nil: %v", fd.Name(), err)
+		}
 		pb, err1 := det.Marshal(p)
 		sb, err2 := det.Marshal(set)
 		if requiredErr(err1) && requiredErr(err2) && model.HasRequired(t.Desc) {
